@@ -59,6 +59,10 @@ func c15Enum(thorough bool, f func(k c15Case)) {
 	// (1) short strings
 	small := []byte{0x00, 0x01, 0x7f, 0x80, 0xff}
 	maxL := 6
+	if thorough {
+		maxL = 8
+		small = []byte{0x00, 0x01, 0x02, 0x7f, 0x80, 0xff}
+	}
 	for _, d := range decs {
 		emit(d, nil)
 		for a := 0; a < 256; a++ {
@@ -92,6 +96,12 @@ func c15Enum(thorough bool, f func(k c15Case)) {
 	for i, tag := range []string{"L5", "L6", "L9"} {
 		ld := LayoutByTag(tag)
 		headers = append(headers, wsp.Layout{Archs: ld.Archs, Method: []uint32{2, 5, 1}[i], XFF: 0.5}.EncodeHeader())
+	}
+	if thorough {
+		for i, tag := range []string{"L1", "L3", "L4", "L7", "L8", "L10"} {
+			ld := LayoutByTag(tag)
+			headers = append(headers, wsp.Layout{Archs: ld.Archs, Method: uint32(1 + i%6), XFF: []float32{0, 0.5, 1}[i%3]}.EncodeHeader())
+		}
 	}
 	// intact headers with xFilesFactor 0 and the methods that index their input (last, min, first, max), used only
 	// over damaged bodies below
@@ -468,7 +478,7 @@ func runC15(c *fw.Ctx) {
 	self, _ := os.Executable()
 	start := 0
 	total := -1
-	c.R.Bounds["grid"] = "8 decoders x (all strings len<=2, all len 3..6 over 5 bytes); 3 headers / 2 series / point lists x (every bit flip, every truncation, every field singly and pairwise over 8 (32-bit) or 12 (64-bit) extreme values); files = mutated headers x body lengths {0,1,declared-1,declared,declared+1}; remote view / view-raw responses with mutated framing"
+	c.R.Bounds["grid"] = "8 decoders x (all strings len<=2, all len 3..6 over 5 bytes; thorough: len<=8 over 6 bytes); 3 (thorough 9) headers / 2 series / point lists x (every bit flip, every truncation, every field singly and pairwise over 8 (32-bit) or 12 (64-bit) extreme values); files = mutated headers x body lengths {0,1,declared-1,declared,declared+1}; remote view / view-raw responses with mutated framing"
 	cases := map[int]c15Case{}
 	lookup := func(i int) c15Case {
 		if k, ok := cases[i]; ok {
